@@ -57,6 +57,7 @@ template<class T, class C> struct KllFam {
     for (uint32_t i = s.levels_[1]; i < s.levels_[s.num_levels_]; ++i) o += Dom<T>::s(s.items_[i]) + ",";
     o += "|";
     if (s.min_item_) o += Dom<T>::s(*s.min_item_); o += "/"; if (s.max_item_) o += Dom<T>::s(*s.max_item_);
+    o += s.sorted_view_ != nullptr ? "|cached-view" : "";   // a cached sorted view is state: later answers may come from it
     return o;
   }
   static void level_items(const Sk& s, std::vector<std::pair<T, uint64_t> >& out, mc::Ctx& c) {
@@ -66,6 +67,8 @@ template<class T, class C> struct KllFam {
     }
   }
   static uint64_t retained_bound(const Sk& s, uint64_t n) { return kll_helper::compute_total_capacity(s.k_, s.m_, kll_helper::ub_on_num_levels(n)); }
+  // the published error must be that of the smallest k that contributed compacted data
+  static void check_published_error(const Sk& s, int min_k, mc::Ctx& c) { for (int pmf = 0; pmf < 2; ++pmf) c.eq("published-error-is-for-smallest-contributing-k", s.get_normalized_rank_error(pmf == 1), Sk::get_normalized_rank_error((uint16_t)min_k, pmf == 1)); }
   static bool retained_exact(const Sk&, uint64_t, uint64_t&) { return false; }
 };
 template<class T, class C> struct ReqFam {
@@ -87,6 +90,7 @@ template<class T, class C> struct ReqFam {
     }
     o += "}";
     if (s.min_item_) o += Dom<T>::s(*s.min_item_); o += "/"; if (s.max_item_) o += Dom<T>::s(*s.max_item_);
+    o += s.sorted_view_ != nullptr ? "|cached-view" : "";
     return o;
   }
   static void level_items(const Sk& s, std::vector<std::pair<T, uint64_t> >& out, mc::Ctx& c) {
@@ -99,6 +103,7 @@ template<class T, class C> struct ReqFam {
     }
   }
   static uint64_t retained_bound(const Sk& s, uint64_t) { uint64_t b = 0; for (size_t l = 0; l < s.compactors_.size(); ++l) b += s.compactors_[l].get_nom_capacity(); return b; }
+  static void check_published_error(const Sk&, int, mc::Ctx&) {}
   static bool retained_exact(const Sk&, uint64_t, uint64_t&) { return false; }
 };
 template<class T, class C> struct ClassicFam {
@@ -116,6 +121,7 @@ template<class T, class C> struct ClassicFam {
       o += "}";
     }
     if (s.min_item_) o += Dom<T>::s(*s.min_item_); o += "/"; if (s.max_item_) o += Dom<T>::s(*s.max_item_);
+    o += s.sorted_view_ != nullptr ? "|cached-view" : "";
     return o;
   }
   static void level_items(const Sk& s, std::vector<std::pair<T, uint64_t> >& out, mc::Ctx& c) {
@@ -127,13 +133,14 @@ template<class T, class C> struct ClassicFam {
     }
   }
   static uint64_t retained_bound(const Sk& s, uint64_t n) { uint64_t e; retained_exact(s, n, e); return e; }
+  static void check_published_error(const Sk& s, int, mc::Ctx& c) { for (int pmf = 0; pmf < 2; ++pmf) c.eq("published-error-is-for-k", s.get_normalized_rank_error(pmf == 1), Sk::get_normalized_rank_error(s.get_k(), pmf == 1)); }
   static bool retained_exact(const Sk& s, uint64_t n, uint64_t& e) { // documented: base buffer n mod 2k, one k-sized level per set bit of n/2k
     uint64_t k2 = 2ull * s.k_; e = n % k2; uint64_t p = n / k2; while (p) { if (p & 1) e += s.k_; p >>= 1; } return true;
   }
 };
 
 // ---------- operand specification (for merge menus) ----------
-struct OperandSpec { std::string name; Cfg cfg; std::vector<int> vals; uint64_t bit_fill; };
+struct OperandSpec { std::string name; Cfg cfg; std::vector<int> vals; uint64_t bit_fill; Cfg cfg2; std::vector<int> vals2; bool merged; OperandSpec(): bit_fill(0), merged(false) {} };   // merged: a second sketch (cfg2, vals2) is merged into the first
 
 // ---------- the System ----------
 // Slots hold sketches; slot 0 is the sketch under study. Ops:
@@ -143,7 +150,7 @@ struct OperandSpec { std::string name; Cfg cfg; std::vector<int> vals; uint64_t 
 template<class Fam>
 struct QuantSys {
   typedef typename Fam::Sk Sk; typedef typename Fam::Item T; typedef typename Fam::Cmp C;
-  struct Slot { std::unique_ptr<Sk> sk; std::vector<T> model; Cfg cfg; };
+  struct Slot { std::unique_ptr<Sk> sk; std::vector<T> model; Cfg cfg; int min_k; Slot(): min_k(0) {} };
   struct State { std::vector<Slot> slots; };
   struct Op { char kind; int a, b; std::string name; };
 
@@ -151,13 +158,14 @@ struct QuantSys {
   std::vector<T> grid_override;   // query grid (defaults to Dom<T>::grid())
   std::vector<T> query_grid() const { return grid_override.empty() ? Dom<T>::grid() : grid_override; }
   int max_n;   // updates/merges that would push n above this are disabled (bounds the space)
-  bool light_check;
-  QuantSys(): max_n(1 << 30), light_check(false) { vals = Dom<T>::values(); }
+  bool light_check, check_published;
+  QuantSys(): max_n(1 << 30), light_check(false), check_published(false) { vals = Dom<T>::values(); }
 
   void add_update_ops(int slot, bool with_nan) {
     for (size_t v = 0; v < vals.size(); ++v) { Op o; o.kind = 'U'; o.a = slot; o.b = (int)v; o.name = "U" + str(slot) + ":" + Dom<T>::s(vals[v]); ops.push_back(o); }
     if (with_nan && Dom<T>::has_nan()) { Op o; o.kind = 'U'; o.a = slot; o.b = (int)vals.size(); o.name = "U" + str(slot) + ":nan"; ops.push_back(o); }
   }
+  void add_query_op(int slot) { Op o; o.kind = 'Q'; o.a = slot; o.b = 0; o.name = "Q" + str(slot); ops.push_back(o); }   // a query builds the cached sorted view
   void add_slot_merge_ops(int s, int t) { Op o; o.kind = 'M'; o.a = s; o.b = t; o.name = "M" + str(s) + str(t); ops.push_back(o); o.kind = 'R'; o.name = "R" + str(s) + str(t); ops.push_back(o); }
   void add_menu_ops() {
     for (size_t j = 0; j < menu.size(); ++j) for (int f = 0; f < 3; ++f) { Op o; o.kind = 'O'; o.a = (int)j; o.b = f; o.name = "O" + menu[j].name + (f == 0 ? "l" : f == 1 ? "r" : "x"); ops.push_back(o); }
@@ -168,16 +176,30 @@ struct QuantSys {
   std::string opname(size_t i) const { return ops[i].name; }
   State* make() {
     State* s = new State; s->slots.resize(slot_cfgs.size());
-    for (size_t i = 0; i < slot_cfgs.size(); ++i) { s->slots[i].cfg = slot_cfgs[i]; s->slots[i].sk.reset(Fam::make(slot_cfgs[i])); }
+    for (size_t i = 0; i < slot_cfgs.size(); ++i) { s->slots[i].cfg = slot_cfgs[i]; s->slots[i].min_k = slot_cfgs[i].k; s->slots[i].sk.reset(Fam::make(slot_cfgs[i])); }
     return s;
   }
-  Sk* build_operand(const OperandSpec& sp, std::vector<T>& model) {
+  // deep copy through the sketches' copy constructors (used by mc::LiveTree, which validates every clone against canon)
+  State* clone(State& st) {
+    State* c = new State; c->slots.resize(st.slots.size());
+    for (size_t i = 0; i < st.slots.size(); ++i) { c->slots[i].cfg = st.slots[i].cfg; c->slots[i].min_k = st.slots[i].min_k; c->slots[i].model = st.slots[i].model; c->slots[i].sk.reset(new Sk(*st.slots[i].sk)); }
+    return c;
+  }
+  Sk* build_operand(const OperandSpec& sp, std::vector<T>& model, int* min_k = nullptr) {
     // operands are built with a fixed coin schedule (sp.bit_fill), independent of the tape of the history being explored
     mc::Tape t; t.bit_fill = sp.bit_fill; mc::Tape* prev = mc::cur_tape(); mc::cur_tape() = &t;
     Cfg c = sp.cfg; c.init_coin = (int)sp.bit_fill;
     Sk* o = Fam::make(c);
     mc::cur_tape() = &t;
     for (size_t i = 0; i < sp.vals.size(); ++i) { o->update(vals[sp.vals[i]]); model.push_back(vals[sp.vals[i]]); }
+    int mk = sp.cfg.k;
+    if (sp.merged) {   // a merge result as operand: shapes that updates alone do not produce (empty level 0, min_k below k)
+      Cfg c2 = sp.cfg2; c2.init_coin = (int)sp.bit_fill; std::unique_ptr<Sk> o2(Fam::make(c2)); mc::cur_tape() = &t;
+      for (size_t i = 0; i < sp.vals2.size(); ++i) { o2->update(vals[sp.vals2[i]]); model.push_back(vals[sp.vals2[i]]); }
+      if (o2->is_estimation_mode()) mk = std::min(mk, sp.cfg2.k);
+      o->merge(*o2);
+    }
+    if (min_k) *min_k = mk;
     mc::cur_tape() = prev;
     return o;
   }
@@ -189,9 +211,16 @@ struct QuantSys {
       if (o.b == (int)vals.size()) { s.sk->update(Dom<T>::nan()); return true; }
       s.sk->update(vals[o.b]); s.model.push_back(vals[o.b]); return true;
     }
+    if (o.kind == 'Q') {
+      Slot& s = st.slots[o.a];
+      if (s.model.empty()) return false;
+      s.sk->get_rank(vals[0]);   // builds and caches the sorted view; answers are checked in check()
+      return true;
+    }
     if (o.kind == 'M' || o.kind == 'R') {
       Slot& s = st.slots[o.a]; Slot& t = st.slots[o.b];
       if ((int)(s.model.size() + t.model.size()) > max_n) return false;
+      if (t.sk->is_estimation_mode()) s.min_k = std::min(s.min_k, t.min_k);
       if (o.kind == 'M') {
         std::string before = Fam::canon(*t.sk);
         s.sk->merge(*t.sk);
@@ -207,17 +236,19 @@ struct QuantSys {
     // menu operand
     const OperandSpec& sp = menu[o.a]; Slot& s = st.slots[0];
     if ((int)(s.model.size() + sp.vals.size()) > max_n) return false;
-    std::vector<T> om; std::unique_ptr<Sk> b(build_operand(sp, om));
+    std::vector<T> om; int omk = sp.cfg.k; std::unique_ptr<Sk> b(build_operand(sp, om, &omk));
+    if (o.b == 2) { const int mine = s.sk->is_estimation_mode() ? s.min_k : 1 << 30; s.min_k = std::min(omk, mine); }
+    else if (b->is_estimation_mode()) s.min_k = std::min(s.min_k, omk);
     if (o.b == 0) { std::string before = Fam::canon(*b); s.sk->merge(*b); if (ctx) ctx->ok("merge-leaves-source-unchanged", Fam::canon(*b) == before, "const-ref merge modified its argument"); }
     else if (o.b == 1) { s.sk->merge(std::move(*b)); }
-    else { b->merge(*s.sk); s.sk = std::move(b); s.cfg = sp.cfg; }
+    else { b->merge(*s.sk); s.sk = std::move(b); s.cfg = sp.cfg; if (s.min_k > sp.cfg.k) s.min_k = sp.cfg.k; }
     s.model.insert(s.model.end(), om.begin(), om.end());
     return true;
   }
   std::string canon(State& st) {
     std::string c;
     for (size_t i = 0; i < st.slots.size(); ++i) {
-      c += "S" + str(i) + ":" + Fam::canon(*st.slots[i].sk) + "#";
+      c += "S" + str(i) + ":" + Fam::canon(*st.slots[i].sk) + "#mk" + str(st.slots[i].min_k) + "#";
       std::vector<T> m = st.slots[i].model; std::sort(m.begin(), m.end(), C());
       for (size_t j = 0; j < m.size(); ++j) c += Dom<T>::s(m[j]) + ",";
     }
@@ -226,7 +257,7 @@ struct QuantSys {
 
   template<class F> static bool throws(F f) { try { f(); } catch (const std::exception&) { return true; } return false; }
 
-  void check_slot(const Sk& sk, const std::vector<T>& model_in, mc::Ctx& c) {
+  void check_slot(const Sk& sk, const std::vector<T>& model_in, mc::Ctx& c, int min_k = 0) {
     C cmp;
     std::vector<T> model = model_in; std::sort(model.begin(), model.end(), cmp);
     const uint64_t n = model.size();
@@ -347,7 +378,11 @@ struct QuantSys {
     }
     c.rep.outcome(std::string(Fam::fam()) + (exact ? "|exact" : "|estimating") + "|levels" + str(lv.empty() ? 0 : (int)std::log2((double)lv.back().second)));
   }
-  void check(State& st, mc::Ctx& c) { if (light_check) return; for (size_t i = 0; i < st.slots.size(); ++i) check_slot(*st.slots[i].sk, st.slots[i].model, c); }
+  void check(State& st, mc::Ctx& c) {
+    if (check_published) for (size_t i = 0; i < st.slots.size(); ++i) if (!st.slots[i].model.empty()) Fam::check_published_error(*st.slots[i].sk, st.slots[i].min_k, c);   // C08: the error a sketch publishes
+    if (light_check) return;
+    for (size_t i = 0; i < st.slots.size(); ++i) check_slot(*st.slots[i].sk, st.slots[i].model, c);
+  }
 };
 
 } // namespace qc
